@@ -54,6 +54,79 @@ theorem hashes_build (H : Bytes → Bytes) (names : List Bytes) (prefs : List By
   · rintro ⟨n, hn, he, hp⟩
     exact ⟨(H n).take 2, hp, (H n).drop 2, ⟨n, hn, rfl, rfl⟩, by rw [List.take_append_drop, he]⟩
 
+/-! ### Buckets with multiplicity -/
+
+theorem foldl_bucket (H : Bytes → Bytes) (names : List Bytes) (st0 : Store) (p : Bytes) :
+    (names.foldl (fun st n => st.add (H n)) st0) p =
+      st0 p ++ (names.filter (fun n => (H n).take 2 == p)).map (fun n => (H n).drop 2) := by
+  induction names generalizing st0 with
+  | nil => simp
+  | cons a r ih =>
+    simp only [List.foldl_cons, ih, Store.add, List.filter_cons]
+    by_cases hp : p = (H a).take 2
+    · subst hp; simp
+    · have : ((H a).take 2 == p) = false := by
+        simp only [beq_eq_false_iff_ne, ne_eq]; exact fun h => hp h.symm
+      simp [hp, this]
+
+/-- A bucket holds the digest tails of the listed names with that prefix, in list order, one per
+line: duplicates stay. -/
+theorem build_bucket (H : Bytes → Bytes) (names : List Bytes) (p : Bytes) :
+    build H names p = (names.filter (fun n => (H n).take 2 == p)).map (fun n => (H n).drop 2) := by
+  unfold build
+  rw [foldl_bucket]
+  simp [Store.empty]
+
+theorem count_bucket (H : Bytes → Bytes) (names : List Bytes) (p x : Bytes) :
+    ((build H names p).map (fun suf => p ++ suf)).count x =
+      names.countP (fun n => (H n).take 2 == p && H n == x) := by
+  rw [build_bucket]
+  induction names with
+  | nil => simp
+  | cons a r ih =>
+    simp only [List.filter_cons, List.countP_cons]
+    by_cases hp : (H a).take 2 = p
+    · have hb : ((H a).take 2 == p) = true := by simpa using hp
+      simp only [hb, if_true, List.map_cons, List.count_cons, ih, Bool.true_and]
+      have : (p ++ (H a).drop 2) = H a := by rw [← hp, List.take_append_drop]
+      rw [this]
+    · have hb : ((H a).take 2 == p) = false := by simpa using hp
+      simp only [hb, Bool.false_and, Bool.false_eq_true, if_false, Nat.add_zero]
+      exact ih
+
+/-- With multiplicity: `Hashes prefs` returns a digest once for every list line carrying a name
+with that digest and every occurrence of the digest's prefix among `prefs`. -/
+theorem hashes_count (H : Bytes → Bytes) (names prefs : List Bytes) (x : Bytes) :
+    (hashes (build H names) prefs).count x =
+      prefs.count (x.take 2) * names.countP (fun n => H n == x) := by
+  unfold hashes
+  induction prefs with
+  | nil => simp
+  | cons p ps ih =>
+    simp only [List.flatMap_cons, List.count_append, ih, count_bucket, List.count_cons]
+    have : names.countP (fun n => (H n).take 2 == p && H n == x) =
+        if p = x.take 2 then names.countP (fun n => H n == x) else 0 := by
+      by_cases hp : p = x.take 2
+      · simp only [hp, if_true]
+        apply List.countP_congr
+        intro n _
+        simp only [Bool.and_eq_true, beq_iff_eq]
+        constructor
+        · intro h; exact h.2
+        · intro h; exact ⟨by rw [h], h⟩
+      · simp only [hp, if_false]
+        rw [List.countP_eq_zero]
+        intro n _
+        simp only [Bool.and_eq_true, beq_iff_eq, not_and]
+        intro h1 h2
+        exact hp (by rw [← h1, h2])
+    rw [this]
+    by_cases hp : p = x.take 2
+    · have : (p == x.take 2) = true := by simpa using hp
+      simp [hp, Nat.add_mul, Nat.add_comm]
+    · have : (p == x.take 2) = false := by simpa using hp
+      simp [hp, this]
+
 /-! ### Parents, the four-label cut -/
 
 /-- `s` is `d` itself or what follows one of `d`'s dots: `d` or one of its parent domains. -/
@@ -182,10 +255,73 @@ theorem dotSuffix_cut4 (d s : Bytes) (hs : DotSuffix s d) (h3 : countDots s ≤ 
           simp at h
           exact ih (Or.inr ⟨pre', h.2⟩)
 
+
+/-! ### The right-to-left scan of `strings.LastIndexFunc` computes the cut -/
+
+theorem countDots_cons (c : UInt8) (a : Bytes) :
+    countDots (c :: a) = if c = dot then countDots a + 1 else countDots a := by
+  by_cases h : c = dot <;> simp [countDots, h]
+
+theorem cut4_append_dot (pre acc : Bytes) (h : countDots acc = 3) : cut4 (pre ++ dot :: acc) = acc := by
+  induction pre with
+  | nil =>
+    have : ¬ countDots (dot :: acc) ≤ 3 := by rw [countDots_cons]; simp; omega
+    simp only [List.nil_append]
+    unfold cut4
+    simp only [this, if_false]
+    exact cut4_id acc (by omega)
+  | cons a p ih =>
+    have : ¬ countDots (a :: (p ++ dot :: acc)) ≤ 3 := by
+      rw [countDots_cons, countDots_append, countDots_cons]
+      by_cases ha : a = dot <;> simp [ha] <;> omega
+    rw [List.cons_append]
+    unfold cut4
+    simp only [this, if_false]
+    exact ih
+
+theorem cutScan_spec (r : Bytes) : ∀ (n : Nat) (acc : Bytes), countDots acc = n → n ≤ 3 →
+    (match cutScan r n acc with | some s => s | none => r.reverse ++ acc) = cut4 (r.reverse ++ acc) := by
+  induction r with
+  | nil =>
+    intro n acc hn h3
+    simp only [cutScan, List.reverse_nil, List.nil_append]
+    exact (cut4_id acc (by omega)).symm
+  | cons c r ih =>
+    intro n acc hn h3
+    unfold cutScan
+    have hc : countDots (c :: acc) = if c = dot then n + 1 else n := by rw [countDots_cons, hn]
+    by_cases h4 : (if c = dot then n + 1 else n) = 4
+    · simp only [h4, if_true]
+      have hdot : c = dot := by
+        apply Classical.byContradiction
+        intro hne; simp [hne] at h4; omega
+      have hn3 : countDots acc = 3 := by simp [hdot] at h4; omega
+      subst hdot
+      rw [List.reverse_cons, List.append_assoc]
+      exact (cut4_append_dot r.reverse acc hn3).symm
+    · simp only [h4, if_false]
+      have hle : (if c = dot then n + 1 else n) ≤ 3 := by
+        by_cases hd : c = dot
+        · simp [hd] at h4 ⊢; omega
+        · simp [hd]; omega
+      have := ih _ (c :: acc) hc hle
+      rw [List.reverse_cons, List.append_assoc]
+      simpa using this
+
+/-- The scan `hashableSubdomains` performs is the declarative cut: the longest suffix of the
+domain with at most three dots. -/
+theorem cut4Scan_eq (d : Bytes) : cut4Scan d = cut4 d := by
+  have h := cutScan_spec d.reverse 0 [] (by simp [countDots]) (by omega)
+  simp only [List.reverse_reverse, List.append_nil] at h
+  unfold cut4Scan
+  cases hc : cutScan d.reverse 0 [] with
+  | none => rw [hc] at h; exact h
+  | some s => rw [hc] at h; exact h
+
 /-- The names `hashableSubdomains` starts from: `d` or a parent of `d`, at most four labels. -/
 theorem mem_subdomains_cut4 (d s : Bytes) :
-    s ∈ subdomains (cut4 d) ↔ d ≠ [] ∧ DotSuffix s d ∧ countDots s ≤ 3 := by
-  rw [mem_subdomains]
+    s ∈ subdomains (cut4Scan d) ↔ d ≠ [] ∧ DotSuffix s d ∧ countDots s ≤ 3 := by
+  rw [cut4Scan_eq, mem_subdomains]
   constructor
   · rintro ⟨hne, hs⟩
     refine ⟨?_, dotSuffix_trans hs (cut4_dotSuffix d), Nat.le_trans (dotSuffix_countDots hs) (countDots_cut4 d)⟩
@@ -369,6 +505,370 @@ theorem dotSuffix_total {a b d : Bytes} (ha : DotSuffix a d) (hb : DotSuffix b d
           have : a.length = (t ++ dot :: b).length := by rw [h2.2]
           simp at this
           omega
+
+
+/-! ### Lines of a text, declaratively -/
+
+/-- `l` is the first line of `t`: `t` starts with `l`, `l` has no separator, and `l` is followed by
+a separator or the end of the text. -/
+def IsFirstLine (sep : UInt8) (t l : Bytes) : Prop :=
+  sep ∉ l ∧ ∃ post, t = l ++ post ∧ (post = [] ∨ ∃ q, post = sep :: q)
+
+/-- `l` is a line of `t` that follows a separator. -/
+def IsLaterLine (sep : UInt8) (t l : Bytes) : Prop :=
+  sep ∉ l ∧ ∃ p post, t = p ++ sep :: (l ++ post) ∧ (post = [] ∨ ∃ q, post = sep :: q)
+
+theorem isFirstLine_unique (sep : UInt8) (t a b : Bytes) (ha : IsFirstLine sep t a) (hb : IsFirstLine sep t b) :
+    a = b := by
+  induction a generalizing t b with
+  | nil =>
+    cases b with
+    | nil => rfl
+    | cons y b' =>
+      obtain ⟨_, pa, hta, hpa⟩ := ha
+      obtain ⟨hnb, pb, htb, _⟩ := hb
+      rcases hpa with hpa | ⟨q, hpa⟩
+      · subst hpa; rw [hta] at htb; simp at htb
+      · rw [hta, hpa] at htb
+        simp at htb
+        exact absurd (by rw [htb.1]; simp) hnb
+  | cons x a' ih =>
+    cases b with
+    | nil =>
+      obtain ⟨hna, pa, hta, _⟩ := ha
+      obtain ⟨_, pb, htb, hpb⟩ := hb
+      rcases hpb with hpb | ⟨q, hpb⟩
+      · subst hpb; rw [htb] at hta; simp at hta
+      · rw [htb, hpb] at hta
+        simp at hta
+        exact absurd (by rw [← hta.1]; simp) hna
+    | cons y b' =>
+      obtain ⟨hna, pa, hta, hpa⟩ := ha
+      obtain ⟨hnb, pb, htb, hpb⟩ := hb
+      have hxy : x = y := by rw [hta] at htb; simp at htb; exact htb.1
+      subst hxy
+      have := ih (a' ++ pa) b'
+        ⟨fun h => hna (List.mem_cons_of_mem _ h), pa, rfl, hpa⟩
+        ⟨fun h => hnb (List.mem_cons_of_mem _ h), pb, by rw [hta] at htb; simp at htb; exact htb, hpb⟩
+      rw [this]
+
+theorem splitOn_ne_nil (sep : UInt8) (t : Bytes) : splitOn sep t ≠ [] := by
+  cases t with
+  | nil => simp [splitOn]
+  | cons c r =>
+    unfold splitOn
+    by_cases hc : c = sep
+    · simp [hc]
+    · simp only [hc, if_false]
+      split <;> simp
+
+/-- `splitOn` yields the first line, then exactly the lines that follow a separator. -/
+theorem splitOn_spec (sep : UInt8) (t : Bytes) :
+    ∃ l ls, splitOn sep t = l :: ls ∧ IsFirstLine sep t l ∧ ∀ raw, raw ∈ ls ↔ IsLaterLine sep t raw := by
+  induction t with
+  | nil =>
+    refine ⟨[], [], rfl, ⟨by simp, [], rfl, Or.inl rfl⟩, ?_⟩
+    intro raw
+    simp only [List.not_mem_nil, false_iff]
+    rintro ⟨_, p, post, h, _⟩
+    simp at h
+  | cons c r ih =>
+    obtain ⟨l', ls', hsp, hfirst, hlater⟩ := ih
+    by_cases hc : c = sep
+    · subst hc
+      refine ⟨[], l' :: ls', by simp [splitOn, hsp], ⟨by simp, c :: r, rfl, Or.inr ⟨r, rfl⟩⟩, ?_⟩
+      intro raw
+      simp only [List.mem_cons]
+      constructor
+      · rintro (h | h)
+        · subst h
+          obtain ⟨hn, post, ht, hp⟩ := hfirst
+          exact ⟨hn, [], post, by simp [ht], hp⟩
+        · obtain ⟨hn, p, post, ht, hp⟩ := (hlater raw).1 h
+          exact ⟨hn, c :: p, post, by simp [ht], hp⟩
+      · rintro ⟨hn, p, post, ht, hp⟩
+        cases p with
+        | nil =>
+          left
+          simp at ht
+          exact isFirstLine_unique c r raw l' ⟨hn, post, ht, hp⟩ hfirst
+        | cons a p' =>
+          right
+          simp at ht
+          exact (hlater raw).2 ⟨hn, p', post, ht.2, hp⟩
+    · refine ⟨c :: l', ls', by simp [splitOn, hc, hsp], ?_, ?_⟩
+      · obtain ⟨hn, post, ht, hp⟩ := hfirst
+        refine ⟨?_, post, by simp [ht], hp⟩
+        intro hm
+        simp only [List.mem_cons] at hm
+        rcases hm with hm | hm
+        · exact hc hm.symm
+        · exact hn hm
+      · intro raw
+        rw [hlater raw]
+        constructor
+        · rintro ⟨hn, p, post, ht, hp⟩
+          exact ⟨hn, c :: p, post, by simp [ht], hp⟩
+        · rintro ⟨hn, p, post, ht, hp⟩
+          cases p with
+          | nil => simp at ht; exact absurd ht.1 hc
+          | cons a p' =>
+            simp at ht
+            exact ⟨hn, p', post, ht.2, hp⟩
+
+/-- `raw` is a line of `t`: a separator-free stretch of `t` that begins at the start of the text or
+right after a separator and ends at the end of the text or right before a separator. -/
+def IsLine (sep : UInt8) (t raw : Bytes) : Prop :=
+  sep ∉ raw ∧ ∃ pre post, t = pre ++ raw ++ post ∧
+    (pre = [] ∨ ∃ p, pre = p ++ [sep]) ∧ (post = [] ∨ ∃ q, post = sep :: q)
+
+theorem mem_splitOn (sep : UInt8) (t raw : Bytes) : raw ∈ splitOn sep t ↔ IsLine sep t raw := by
+  obtain ⟨l, ls, hsp, hfirst, hlater⟩ := splitOn_spec sep t
+  rw [hsp, List.mem_cons, hlater]
+  constructor
+  · rintro (h | ⟨hn, p, post, ht, hp⟩)
+    · subst h
+      obtain ⟨hn, post, ht, hp⟩ := hfirst
+      exact ⟨hn, [], post, by simp [ht], Or.inl rfl, hp⟩
+    · exact ⟨hn, p ++ [sep], post, by simp [ht], Or.inr ⟨p, rfl⟩, hp⟩
+  · rintro ⟨hn, pre, post, ht, hpre, hp⟩
+    rcases hpre with hpre | ⟨p, hpre⟩
+    · subst hpre
+      left
+      exact isFirstLine_unique sep t raw l ⟨hn, post, by simpa using ht, hp⟩ hfirst
+    · subst hpre
+      right
+      exact ⟨hn, p, post, by simp [ht], hp⟩
+
+/-! ### Prefix strings -/
+
+theorem allSome_none_iff {α : Type} (l : List (Option α)) : allSome l = none ↔ none ∈ l := by
+  induction l with
+  | nil => simp [allSome]
+  | cons a r ih =>
+    cases a with
+    | none => simp [allSome]
+    | some v =>
+      simp only [allSome, Option.map_eq_none_iff, ih, List.mem_cons]
+      constructor
+      · intro h; exact Or.inr h
+      · rintro (h | h)
+        · cases h
+        · exact h
+
+theorem allSome_some_mem {α : Type} (l : List (Option α)) (r : List α) (h : allSome l = some r) (x : α) :
+    x ∈ r ↔ some x ∈ l := by
+  induction l generalizing r with
+  | nil => simp [allSome] at h; subst h; simp
+  | cons a t ih =>
+    cases a with
+    | none => simp [allSome] at h
+    | some v =>
+      simp only [allSome, Option.map_eq_some_iff] at h
+      obtain ⟨r', hr', he⟩ := h
+      subst he
+      simp [ih r' hr']
+
+theorem mem_dedup (l : List Bytes) (a : Bytes) : a ∈ dedup l ↔ a ∈ l := by
+  induction l with
+  | nil => simp [dedup]
+  | cons b r ih =>
+    unfold dedup
+    by_cases hb : b ∈ r
+    · simp only [hb, if_true, ih, List.mem_cons]
+      constructor
+      · intro h; exact Or.inr h
+      · rintro (h | h)
+        · subst h; exact hb
+        · exact h
+    · simp [hb, ih]
+
+theorem decodeHex_isSome : ∀ s : Bytes,
+    (decodeHex s).isSome = true ↔ s.length % 2 = 0 ∧ ∀ c ∈ s, isHex c = true
+  | [] => by simp [decodeHex]
+  | [a] => by simp [decodeHex]
+  | a :: b :: r => by
+    have ih := decodeHex_isSome r
+    unfold decodeHex
+    by_cases hab : (isHex a && isHex b) = true
+    · simp only [hab, if_true, Option.isSome_map, ih]
+      simp only [Bool.and_eq_true] at hab
+      constructor
+      · rintro ⟨h1, h2⟩
+        refine ⟨by simp only [List.length_cons]; omega, ?_⟩
+        intro c hc
+        simp only [List.mem_cons] at hc
+        rcases hc with hc | hc | hc
+        · subst hc; exact hab.1
+        · subst hc; exact hab.2
+        · exact h2 c hc
+      · rintro ⟨h1, h2⟩
+        refine ⟨by simp only [List.length_cons] at h1; omega, ?_⟩
+        intro c hc
+        exact h2 c (by simp [hc])
+    · simp only [hab, Bool.false_eq_true, if_false, Option.isSome_none, false_iff]
+      rintro ⟨_, h2⟩
+      apply hab
+      simp [h2 a (by simp), h2 b (by simp)]
+
+/-- What one dot-separated piece of a prefix string contributes: the decoded first four
+characters, or `none` when `prefixesFromStr` fails on it (in the switch or in the final loop). -/
+def pieceVal (p : Bytes) : Option Bytes := (piece p).bind decodeHex
+
+/-- A well-formed piece: four or eight characters, all of them hex digits. -/
+def WfPiece (p : Bytes) : Prop := (p.length = 4 ∨ p.length = 8) ∧ ∀ c ∈ p, isHex c = true
+
+theorem piece_len4 (p : Bytes) (h : p.length = 4) : piece p = some p := by
+  unfold piece; rw [if_pos h]
+
+theorem piece_len8 (p : Bytes) (h : p.length = 8) :
+    piece p = if (decodeHex p).isSome then some (p.take 4) else none := by
+  unfold piece; rw [if_neg (by omega), if_pos h]
+
+theorem piece_other (p : Bytes) (h4 : p.length ≠ 4) (h8 : p.length ≠ 8) : piece p = none := by
+  unfold piece; rw [if_neg h4, if_neg h8]
+
+theorem pieceVal_eq_some (p x : Bytes) :
+    pieceVal p = some x ↔ WfPiece p ∧ decodeHex (p.take 4) = some x := by
+  unfold pieceVal WfPiece
+  by_cases h4 : p.length = 4
+  · have ht : p.take 4 = p := List.take_of_length_le (by omega)
+    rw [piece_len4 p h4, ht]
+    simp only [Option.bind_some]
+    constructor
+    · intro h
+      exact ⟨⟨Or.inl h4, ((decodeHex_isSome p).1 (by rw [h]; rfl)).2⟩, h⟩
+    · intro h; exact h.2
+  · by_cases h8 : p.length = 8
+    · rw [piece_len8 p h8]
+      by_cases hd : (decodeHex p).isSome = true
+      · rw [if_pos hd]
+        simp only [Option.bind_some]
+        have := ((decodeHex_isSome p).1 hd).2
+        constructor
+        · intro h; exact ⟨⟨Or.inr h8, this⟩, h⟩
+        · intro h; exact h.2
+      · rw [if_neg hd]
+        simp only [Option.bind_none]
+        constructor
+        · intro h; cases h
+        · rintro ⟨⟨_, hall⟩, _⟩
+          exact absurd ((decodeHex_isSome p).2 ⟨by omega, hall⟩) hd
+    · rw [piece_other p h4 h8]
+      simp only [Option.bind_none]
+      constructor
+      · intro h; cases h
+      · rintro ⟨⟨hl | hl, _⟩, _⟩
+        · exact absurd hl h4
+        · exact absurd hl h8
+
+theorem pieceVal_isSome (p : Bytes) : (pieceVal p).isSome = true ↔ WfPiece p := by
+  constructor
+  · intro h
+    obtain ⟨x, hx⟩ := Option.isSome_iff_exists.1 h
+    exact ((pieceVal_eq_some p x).1 hx).1
+  · intro h
+    have hlen : (p.take 4).length % 2 = 0 := by
+      rw [List.length_take]; rcases h.1 with h1 | h1 <;> rw [h1] <;> decide
+    have : (decodeHex (p.take 4)).isSome = true :=
+      (decodeHex_isSome _).2 ⟨hlen, fun c hc => h.2 c (List.mem_of_mem_take hc)⟩
+    obtain ⟨x, hx⟩ := Option.isSome_iff_exists.1 this
+    rw [(pieceVal_eq_some p x).2 ⟨h, hx⟩]; rfl
+
+/-- The two passes of `prefixesFromStr` (the switch over the pieces, then the decoding loop over
+the set) fail iff some piece has no value. -/
+theorem twoPass_none (xs : List Bytes) :
+    decodePieces xs = none ↔ ∃ p ∈ xs, pieceVal p = none := by
+  unfold decodePieces
+  cases h : allSome (xs.map piece) with
+  | none =>
+    simp only [true_iff]
+    rw [allSome_none_iff] at h
+    simp only [List.mem_map] at h
+    obtain ⟨p, hp, he⟩ := h
+    exact ⟨p, hp, by simp [pieceVal, he]⟩
+  | some ps =>
+    simp only [allSome_none_iff, List.mem_map, mem_dedup]
+    constructor
+    · rintro ⟨q, hq, hd⟩
+      rw [allSome_some_mem _ _ h] at hq
+      simp only [List.mem_map] at hq
+      obtain ⟨p, hp, he⟩ := hq
+      exact ⟨p, hp, by simp [pieceVal, he, hd]⟩
+    · rintro ⟨p, hp, hv⟩
+      cases hpc : piece p with
+      | none =>
+        have : none ∈ xs.map piece := by simp only [List.mem_map]; exact ⟨p, hp, hpc⟩
+        rw [← allSome_none_iff, h] at this
+        cases this
+      | some q =>
+        refine ⟨q, ?_, by simpa [pieceVal, hpc] using hv⟩
+        rw [allSome_some_mem _ _ h]
+        simp only [List.mem_map]
+        exact ⟨p, hp, hpc⟩
+
+theorem twoPass_some (xs : List Bytes) (prefs : List Bytes)
+    (h : decodePieces xs = some prefs) (x : Bytes) :
+    x ∈ prefs ↔ ∃ p ∈ xs, pieceVal p = some x := by
+  unfold decodePieces at h
+  cases h1 : allSome (xs.map piece) with
+  | none => rw [h1] at h; cases h
+  | some ps =>
+    rw [h1] at h
+    simp only at h
+    rw [allSome_some_mem _ _ h]
+    simp only [List.mem_map, mem_dedup]
+    constructor
+    · rintro ⟨q, hq, hd⟩
+      rw [allSome_some_mem _ _ h1] at hq
+      simp only [List.mem_map] at hq
+      obtain ⟨p, hp, he⟩ := hq
+      exact ⟨p, hp, by simp [pieceVal, he, hd]⟩
+    · rintro ⟨p, hp, hv⟩
+      cases hpc : piece p with
+      | none => simp [pieceVal, hpc] at hv
+      | some q =>
+        refine ⟨q, ?_, by simpa [pieceVal, hpc] using hv⟩
+        rw [allSome_some_mem _ _ h1]
+        simp only [List.mem_map]
+        exact ⟨p, hp, hpc⟩
+
+/-! ### Hex encoding of the answers -/
+
+theorem forall_uint8 (P : UInt8 → Prop) (h : ∀ n, n < 256 → P (UInt8.ofNat n)) : ∀ b, P b := by
+  intro b
+  have := h b.toNat (UInt8.toNat_lt b)
+  simpa using this
+
+set_option maxRecDepth 100000 in
+theorem hexDigit_roundtrip : ∀ b : UInt8,
+    (isHex (hexDigit (b / 16)) && isHex (hexDigit (b % 16))) = true ∧
+      hexVal (hexDigit (b / 16)) * 16 + hexVal (hexDigit (b % 16)) = b := by
+  apply forall_uint8
+  decide
+
+/-- `hex.Decode` undoes `hex.Encode`: the answer strings determine the digests. -/
+theorem decodeHex_hexEncode (b : Bytes) : decodeHex (hexEncode b) = some b := by
+  induction b with
+  | nil => rfl
+  | cons a r ih =>
+    simp only [hexEncode, decodeHex, (hexDigit_roundtrip a).1, if_true, ih, Option.map_some,
+      (hexDigit_roundtrip a).2]
+
+theorem hexEncode_length (b : Bytes) : (hexEncode b).length = 2 * b.length := by
+  induction b with
+  | nil => rfl
+  | cons a r ih => simp only [hexEncode, List.length_cons, ih]; omega
+
+theorem hexEncode_take (b : Bytes) (k : Nat) : hexEncode (b.take k) = (hexEncode b).take (2 * k) := by
+  induction b generalizing k with
+  | nil => simp [hexEncode]
+  | cons a r ih =>
+    cases k with
+    | zero => simp [hexEncode]
+    | succ k =>
+      have : 2 * (k + 1) = (2 * k + 1) + 1 := by omega
+      simp only [List.take_succ_cons, hexEncode, this, ih]
 
 /-! ### Toy public-suffix lists for the counter-examples and non-vacuity examples of C11 -/
 
